@@ -630,7 +630,17 @@ impl World {
         *self.stats.probes.entry(name).or_insert(0) += 1;
     }
 
+    /// Record a violation. Once a run has been cut (its byte stream or its timing is no longer
+    /// interpretable after an earlier violation) later observations are follow-on effects and
+    /// are not recorded.
     pub fn violate(&mut self, prop: &'static str, sig: String, detail: String) {
+        if self.cut {
+            return;
+        }
+        self.violate_force(prop, sig, detail);
+    }
+
+    pub fn violate_force(&mut self, prop: &'static str, sig: String, detail: String) {
         let sig = format!("{prop}/{sig}");
         self.log(|| format!("VIOLATION {sig}: {detail}"));
         if self.violations.len() < 32 && !self.violations.iter().any(|v| v.sig == sig) {
